@@ -106,7 +106,7 @@ type Knobs struct {
 func DefaultKnobs() Knobs {
 	return Knobs{
 		MinOps: 3, MaxOps: 22, MaxScopes: 5, MaxDepth: 3, MaxParams: 4, MaxResults: 3,
-		Types:  []string{"T0", "T1", "T2", "T3", "T4", "T5", "S0"},
+		Types:  []string{"T0", "T1", "T2", "T3", "T4", "T5", "S0", "SN"},
 		Ifaces: []string{"I0", "I1", "I2", "I01"},
 		Names:  []string{"a", "b"},
 		Groups: []string{"g", "h"},
